@@ -103,6 +103,7 @@ MC_ExportMenu == {<<<<>>, 32>>, <<Leaf("ectx", 7), 32>>, <<Leaf("ectx", 7), 0>>,
                   <<<<>>, 8160>>, <<<<>>, 8161>>}
 
 NoSetups(x) == {}
+NoSetups2(x, y) == {}
 \* one line per generated transition: everything a one-transition implementation test needs
 EmitTr == Emit => PrintT(ToJson(TransitionRecord))
 
